@@ -29,8 +29,9 @@ func c07Base() model.Frame {
 		{Name: "i2", Kind: model.Int, Cells: []model.Cell{model.I(2), model.I(-3), model.I(5), model.I(1)}}, // no zero: used as divisor
 		{Name: "f", Kind: model.Float, Cells: []model.Cell{model.F(1.5), model.F(-0.25), model.F(4), model.F(8)}},
 		{Name: "b", Kind: model.Bool, Cells: []model.Cell{model.B(true), model.B(false), model.B(false), model.B(true)}},
-		{Name: "s", Kind: model.String, Cells: []model.Cell{model.S("ab"), N, model.S(""), model.S("Cd")}},
-		{Name: "e", Kind: model.Enum, EnumVals: []string{"lo", "hi"}, Cells: []model.Cell{model.S("hi"), N, model.S("lo"), model.S("lo")}},
+		// "C\u00e4d": byte length and rune count differ
+		{Name: "s", Kind: model.String, Cells: []model.Cell{model.S("ab"), N, model.S(""), model.S("C\u00e4d")}},
+		{Name: "e", Kind: model.Enum, EnumVals: []string{"lo", "h\u00ef"}, Cells: []model.Cell{model.S("h\u00ef"), N, model.S("lo"), model.S("lo")}},
 		// a user column that looks like a temporary of the evaluator
 		{Name: "colcol-temp-0", Kind: model.Int, Cells: []model.Cell{model.I(100), model.I(200), model.I(300), model.I(400)}},
 	}}
